@@ -1,20 +1,20 @@
 """C01 lossless tree: S1 (BAL), S2, S3, S4 on every skeleton instance; G-P1 on rule functions."""
 from .. import skel
+from . import common
 
 LEVEL = "other"
+EXHAUSTIVE = False
 EXPLANATION = ("Static analysis of the MIR of every instance of the runtime skeleton: cursor/tree balance on all paths (S1), "
                "completion at end of input (S2), snapshot/restore symmetry (S3), node-vector mutation discipline (S4), and no "
-               "consumption at end of input in generated rule functions (G-P1). Decides the structural necessary conditions of "
-               "losslessness for all inputs; does not decide that the child iterator reaches every pushed node.")
+               "consumption at end of input in generated rule functions (G-P1, token-set abstract interpretation). Decides structural "
+               "necessary conditions of losslessness for all inputs; does not decide that the child iterator reaches every pushed node.")
 
 
 def run(ctx, rep):
-    insts = ctx.instances(with_corpus=ctx.with_corpus)
-    rep.count("skeleton instances", len(insts))
-    for inst in insts:
-        skel.s1_balance(inst, rep)
-        skel.s2_complete(inst, rep)
-        skel.s3_snapshot(inst, rep)
-        skel.s4_nodes(inst, rep)
-    rep.floor("S1", 11 * 20, "functions")
-    rep.assume("user-written callbacks (predicate_*, action_*, create_node_*, create_tokens) do not touch parser internals")
+    common.s_rules(ctx, rep, [
+        lambda i, r, o: skel.s1_balance(i, r),
+        lambda i, r, o: skel.s2_complete(i, r),
+        lambda i, r, o: skel.s3_snapshot(i, r),
+        lambda i, r, o: skel.s4_nodes(i, r),
+    ])
+    common.g_rules(ctx, rep, ["P1", "F6"], floors={"P1": 500})
